@@ -90,6 +90,58 @@ def decision_oracle(ctx, case, real):
             ctx.nontriv(("decision", k, len(s1), len(s2), str(d)))
 
 
+def two_bounds_case(ctx):
+    """-m and -M together, each possibly one-sided: the two filters are independent of each other (what -m looks at must not leak into -M)"""
+    rng = ctx.rng
+    r1, r2 = [], []
+    for i in range(rng.randint(5, 9)):
+        s1, s2 = pipe.rs(rng, rng.randint(0, 24)), pipe.rs(rng, rng.randint(0, 24))
+        r1.append((f"r{i} 1:N:0:1", s1, "I" * len(s1)))
+        r2.append((f"r{i} 2:N:0:1", s2, "I" * len(s2)))
+
+    def bound(lo, hi):
+        form = rng.choice(["a", "a:", ":b", "a:b"])
+        a, b = rng.randint(lo, hi), rng.randint(lo, hi)
+        txt = {"a": f"{a}", "a:": f"{a}:", ":b": f":{b}", "a:b": f"{a}:{b}"}[form]
+        return txt, (a if form != ":b" else None), (a if form == "a" else b if form in (":b", "a:b") else None)
+    mtxt, m1, m2 = bound(2, 12)
+    Mtxt, M1, M2 = bound(10, 22)
+    mode = rng.choice([None, "any", "both", "first", "both", "first"])
+    argv = ["--no-index", "-m", mtxt, "-M", Mtxt]
+    if rng.random() < 0.5:
+        argv = ["--no-index", "-M", Mtxt, "-m", mtxt]
+    if mode:
+        argv += ["--pair-filter", mode]
+    argv += ["-o", "{dir}/o1.fastq", "-p", "{dir}/o2.fastq"]
+    return dict(argv=argv, paired=True, reads1=r1, reads2=r2, with_qual=True, interleaved_in=False,
+                two_bounds=dict(m1=m1, m2=m2, M1=M1, M2=M2, mode=mode or "any"))
+
+
+def two_bounds_oracle(ctx, case, real):
+    if "error" in real:
+        return
+    d = case["two_bounds"]
+
+    def decide(p1, p2):
+        if p1 is None:
+            return p2
+        if p2 is None:
+            return p1
+        return {"any": p1 or p2, "both": p1 and p2, "first": p1}[d["mode"]]
+    main = [rid(r[0]) for r in real["files"].get("o1.fastq", [])]
+    for (n1, s1, _), (n2, s2, _) in zip(case["reads1"], case["reads2"]):
+        short = decide(None if d["m1"] is None else len(s1) < d["m1"], None if d["m2"] is None else len(s2) < d["m2"])
+        long_ = decide(None if d["M1"] is None else len(s1) > d["M1"], None if d["M2"] is None else len(s2) > d["M2"])
+        f = bool(short) or bool(long_)
+        k = rid(n1)
+        if (k in main) == f:
+            ctx.failures.append(Failure("C05/pair-decision", "with -m and -M together a pair is filtered/kept against the documented combination of the per-read "
+                                        "criteria of each filter (a one-sided bound looks at that side only)", case_input(case),
+                                        dict(pair=k, in_main=k in main), dict(too_short=short, too_long=long_, bounds=d)))
+        if f:
+            ctx.nontriv(("two-bounds", k, len(s1), len(s2), str(d)))
+
+
 def criteria_case(ctx):
     """one filter criterion (CASAVA flag, N count, expected errors), mates that disagree, every --pair-filter mode"""
     rng = ctx.rng
@@ -275,6 +327,11 @@ def run(ctx):
         ctx.count("directed-decision")
         sync_oracle(ctx, case, res, real)
         decision_oracle(ctx, case, real)
+    cs = [two_bounds_case(ctx) for _ in range(ctx.scale(80, 1500))]
+    for case, res, real, model in pipe.run_cases(ctx, cs):
+        ctx.count("directed-two-bounds")
+        sync_oracle(ctx, case, res, real)
+        two_bounds_oracle(ctx, case, real)
     cs = [criteria_case(ctx) for _ in range(ctx.scale(80, 1500))]
     for case, res, real, model in pipe.run_cases(ctx, cs):
         ctx.count("directed-criteria")
